@@ -13,6 +13,7 @@ the models proved in C09.  Range hypotheses: every serialised chunk is shorter t
 -/
 import Cascette.Proofs.Blte
 import Cascette.Proofs.BlteEntry
+import Cascette.Proofs.BlteLimits
 namespace Cascette.Props.C01
 open Cascette Cascette.Model.Blte Cascette.Proofs.Blte
 
@@ -548,6 +549,102 @@ theorem chunking_covers_payload (cs : Nat) (d : Bytes) (ps : List Bytes)
     (h : pieces cs d = .ok ps) : ps.flatten = d :=
   pieces_flatten cs d ps h
 
+/-! ### the documented chunk-size limits and the chunk table
+
+`with_chunk_size` bounds the CONTENT of a chunk (1 KiB ..= 16 MiB). The table records the STORED
+length: content or compressed stream + the mode byte, + 16 more bytes for an encrypted chunk. -/
+
+/-- **`with_chunk_size` accepts exactly the documented range** `MIN_CHUNK_SIZE ..= MAX_CHUNK_SIZE`
+(both ends included) and returns `Err(InvalidChunkSize)` outside it. -/
+theorem with_chunk_size_limits (cd : Codec) (b : Builder) (n : Nat) :
+    step cd b (.withChunkSizeChecked n) =
+      if minChunkSize ≤ n ∧ n ≤ maxChunkSize then .ok { b with chunkSize := n }
+      else .error .chunkSize := by
+  simp only [step]
+  by_cases h : n < minChunkSize ∨ maxChunkSize < n
+  · have : ¬ (minChunkSize ≤ n ∧ n ≤ maxChunkSize) := by omega
+    simp only [h, this, if_true, if_false]
+  · have : minChunkSize ≤ n ∧ n ≤ maxChunkSize := by omega
+    simp only [h, this, and_self, if_true, if_false]
+
+/-- **Every table entry a program within the documented limits can emit passes the reader's
+guards.**  For every builder program that sets the chunk size through the validated
+`with_chunk_size` only (or leaves the default) and gives `add_encrypted_data` / `add_chunk` at most
+one maximal chunk of content (`Documented`), with a compressor that returns at most `B` bytes on
+content of up to `MAX_CHUNK_SIZE` bytes: every chunk is stored in at most
+`storedBound B = max MAX_CHUNK_SIZE B + 17` bytes; if that is below `2^32`, every table entry is
+exactly the stored length of its chunk (no `as u32` truncation, never 0), `ChunkData::read_options`
+reads exactly that chunk back from it, and the whole container parses to what `build` wrote. -/
+theorem documented_limits_fit_table (cd : Codec) (B : Nat) (hB : Proofs.BlteLimits.Bounded cd B)
+    (hfit : Proofs.BlteLimits.storedBound B < 2 ^ 32) (keys : Nat → Option Bytes) (H : Bytes → Bytes)
+    (hH : ∀ x, (H x).length = 16) (p : List Op) (b : Builder) (f : File)
+    (hp : ProgOk cd keys Builder.init p) (hdoc : ∀ op ∈ p, Proofs.BlteLimits.Documented op)
+    (hrun : run cd Builder.init p = .ok b) (hbuild : build H b = .ok f) :
+    (∀ c ∈ f.chunks, 1 + c.data.length ≤ Proofs.BlteLimits.storedBound B) ∧
+    (∀ rows, f.table = some rows →
+      rows.map (·.csize) = f.chunks.map (fun c => 1 + c.data.length) ∧
+      ∀ c ∈ f.chunks, ∀ rest, parseChunk (Row.ofChunk H c).csize (c.bytes ++ rest) = some (strip c, rest)) ∧
+    parse (serialize f) = .ok ⟨f.headerSize, f.table, f.chunks.map strip⟩ := by
+  have hlim := (Proofs.BlteLimits.run_lim cd B hB keys p Builder.init b (Proofs.BlteLimits.limInv_init B) hp hdoc hrun).2.2
+  have hch := build_chunks H b f hbuild
+  have hsz : ∀ c ∈ b.chunks, 1 + c.data.length < 2 ^ 32 := fun c hc =>
+    Nat.lt_of_le_of_lt (hlim c hc) hfit
+  have hrow : ∀ c ∈ b.chunks, (Row.ofChunk H c).csize = 1 + c.data.length := fun c hc => by
+    simp only [Row.ofChunk]; exact Nat.mod_eq_of_lt (hsz c hc)
+  refine ⟨by rw [hch]; exact hlim, ?_, (parse_serialize_build H hH b f hbuild hsz).1⟩
+  intro rows hrows
+  rw [hch]
+  refine ⟨?_, fun c hc rest => by rw [hrow c hc]; exact parseChunk_bytes c rest⟩
+  rcases build_cases H b f hbuild with ⟨c, _, _, rfl⟩ | ⟨_, _, rfl⟩
+  · cases hrows
+  · simp only [Option.some.injEq] at hrows; subst hrows
+    rw [List.map_map]
+    exact List.map_congr_left (fun c hc => hrow c hc)
+
+/-- **Round trip within the documented limits, without a size hypothesis.**  The range hypothesis
+of `blte_roundtrip_partial` ("every serialised chunk is shorter than 2^32 bytes") follows from the
+builder's own limits: chunk size set by `with_chunk_size` (≤ 16 MiB), single pieces of at most
+16 MiB, a compressor that stays below `2^32 - 17` bytes on such content. -/
+theorem blte_roundtrip_documented_limits (cd : Codec) (law : Lawful cd) (B : Nat)
+    (hB : Proofs.BlteLimits.Bounded cd B) (hfit : Proofs.BlteLimits.storedBound B < 2 ^ 32)
+    (keys : Nat → Option Bytes) (H : Bytes → Bytes) (hH : ∀ x, (H x).length = 16) (p : List Op)
+    (b : Builder) (f : File) (hp : ProgOk cd keys Builder.init p)
+    (hdoc : ∀ op ∈ p, Proofs.BlteLimits.Documented op) (hrun : run cd Builder.init p = .ok b)
+    (hbuild : build H b = .ok f) : decodeBytes cd keys (serialize f) = .ok (content p) := by
+  have h := (documented_limits_fit_table cd B hB hfit keys H hH p b f hp hdoc hrun hbuild).1
+  exact blte_roundtrip_partial cd law keys H hH p b f hp hrun hbuild
+    (fun c hc => Nat.lt_of_le_of_lt (h c hc) hfit)
+
+/-- **A table entry may exceed `MAX_CHUNK_SIZE`.**  A chunk filled to the documented maximum of
+content is stored in `MAX_CHUNK_SIZE + 1` bytes in mode N and in `MAX_CHUNK_SIZE + 17` bytes when
+encrypted (inner mode N; `[u8; 16]` key, `[u8; 4]` IV), and that is what its table entry says: a
+reader that took `MAX_CHUNK_SIZE` for a limit on table entries would refuse the builder's own
+output (the program `with_chunk_size(MAX_CHUNK_SIZE); add_data(small); add_data(d)` is within the
+documented limits). -/
+theorem full_chunk_table_entry_exceeds_max (cd : Codec) (H : Bytes → Bytes) (d : Bytes)
+    (hd : d.length = maxChunkSize) :
+    (∀ c, Chunk.new cd d .none = .ok c → (Row.ofChunk H c).csize = maxChunkSize + 1) ∧
+    (∀ spec key idx c, key.length = 16 → spec.iv.length = 4 →
+      encChunk cd .none d spec key idx = .ok c → (Row.ofChunk H c).csize = maxChunkSize + 17) ∧
+    (∀ s k small, Proofs.BlteLimits.Documented (.withChunkSizeChecked maxChunkSize) ∧
+      Proofs.BlteLimits.Documented (.withEncryption s k) ∧ Proofs.BlteLimits.Documented (.addData small) ∧
+      Proofs.BlteLimits.Documented (.addData d)) := by
+  refine ⟨?_, ?_, fun _ _ _ => ⟨trivial, trivial, trivial, trivial⟩⟩
+  · intro c hc
+    simp only [Chunk.new, if_true, Except.ok.injEq] at hc; subst hc
+    simp only [Row.ofChunk, hd, maxChunkSize]
+  · intro spec key idx c hk hiv hc
+    unfold encChunk at hc
+    have hin : buildInner cd .none d = .ok (Mode.none.byte :: d) := by simp [buildInner]
+    rw [hin] at hc
+    simp only at hc
+    split at hc
+    · cases hc
+    · rename_i ed hed
+      simp only [Except.ok.injEq] at hc; subst hc
+      have hl := Proofs.BlteLimits.encryptChunk_len _ ed spec key idx hk hiv hed
+      simp only [Row.ofChunk, hl, List.length_cons, hd, maxChunkSize, encHeaderLen]
+
 /-! ### non-vacuity: the hypotheses are met by concrete, non-trivial programs -/
 
 /-- a lawful codec exists (identity); the real zlib/LZ4 are exercised by the correspondence run. -/
@@ -556,6 +653,17 @@ example : Lawful idCodec := by
   intro m x c h
   simp only [idCodec, Option.some.injEq] at h ⊢
   exact h.symm
+
+/-- the hypotheses of the documented-limits theorems are satisfiable: the identity codec returns
+at most `MAX_CHUNK_SIZE` bytes on content within the limit; and the bound the run checks on the
+real zlib / LZ4 (`len + len/255 + 64`, oracle clause `param-bound-compress-expansion`) leaves the
+stored length of a maximal chunk far below `2^32`. -/
+example : Proofs.BlteLimits.Bounded idCodec maxChunkSize ∧
+    Proofs.BlteLimits.storedBound maxChunkSize < 2 ^ 32 ∧
+    Proofs.BlteLimits.storedBound (maxChunkSize + maxChunkSize / 255 + 64) < 2 ^ 32 := by
+  refine ⟨?_, by decide, by decide⟩
+  intro m x c hx h
+  simp only [idCodec, Option.some.injEq] at h; subst h; exact hx
 
 /-- cs = 2, Salsa20, `add_data` of `N Z 4` (two chunks), `add_mixed_data` plain, then a second
 `add_data` under encryption, zlib mode for the last: every call `Ok`, `build` `Ok`, and the
